@@ -543,9 +543,21 @@ func loopRegion(lp eng.MapLoop) map[*ssa.BasicBlock]bool {
 // test, and the flag is set true only where the voter was looked up and not found.
 func c25FlagPart(c *core.Ctx, fn *ssa.Function, flagIf *ssa.If, afterLoop, inserts []ir.Sink, region map[*ssa.BasicBlock]bool, clp eng.MapLoop,
 	voted func(func(ssa.Value) bool) ir.Guard, isVoter func(ssa.Value) bool, mapField string, opt *eng.Opt) {
+	flagV := flagIf.Cond
+	for {
+		if u, isU := flagV.(*ssa.UnOp); isU && u.Op == token.NOT {
+			flagV = u.X
+			continue
+		}
+		break
+	}
 	flagGuard := eng.NamedGuard{Name: "not-yet-voted flag", G: func(cd ir.Cond) (bool, bool) {
 		if cd.If == flagIf {
 			return true, true // cd.V is the flag itself (negations are folded into the edge index)
+		}
+		// a second test of the very same flag value
+		if _, isPhi := cd.V.(*ssa.Phi); isPhi && cd.V == flagV {
+			return true, true
 		}
 		return false, false
 	}}
